@@ -1,6 +1,8 @@
 package repository
 
 import (
+	"encoding/hex"
+	"crypto/sha256"
 	"io"
 	"bytes"
 	"context"
@@ -345,6 +347,39 @@ func TestVerifC38(t *testing.T) {
 					if n > 1 && (k[:5] == "index" || k[:8] == "snapshot") {
 						r.Fail("one-download", "downloaded-twice", "%s was downloaded %d times although nothing disturbed the cache", k, n)
 					}
+				}
+			}
+			// a Save through the caching backend that fails at the repository (and whose follow-up
+			// Stat fails too): nothing may be served from the cache for a file the repository does not have
+			if tp.Choose(3) == 0 {
+				payload := hk.Content(st, 300+tp.Choose(3000), 0)
+				sum := sha256.Sum256(payload)
+				h := backend.Handle{Type: []backend.FileType{backend.SnapshotFile, backend.IndexFile}[tp.Choose(2)], Name: hex.EncodeToString(sum[:])}
+				failStat := tp.Choose(2) == 0
+				cl.Script = func(op string, hh backend.Handle, _ int) *simbe.Forced {
+					if hh.Type == h.Type && hh.Name == h.Name && (op == "Save" || failStat && op == "Stat") {
+						s.Count("fault:save-through-cache-fails")
+						return &simbe.Forced{Kind: "err-before"}
+					}
+					return nil
+				}
+				var serr, lerr error
+				var got []byte
+				s.Do("saver", proc, func() {
+					serr = repo2.be.Save(ctx, h, backend.NewByteReader(payload, cl.Hasher()))
+					cl.Script = nil
+					lerr = repo2.be.Load(ctx, h, 0, 0, func(rd io.Reader) error {
+						var err error
+						got, err = io.ReadAll(rd)
+						return err
+					})
+				})
+				cl.Script = nil
+				if serr == nil {
+					r.Fail("save", "failed-save-reported-success", "Save of %v through the cache succeeded although the repository rejected it", h)
+				}
+				if lerr == nil && store.Get(h) == nil {
+					r.Fail("same-bytes", "served-file-the-repository-lacks", "after a failed Save of %v (Stat failing too: %v) a load through the cache returned %d bytes without an error, but the repository does not have the file", h, failStat, len(got))
 				}
 			}
 			// final round without interference: everything still in the repository loads correctly,
